@@ -529,6 +529,25 @@ def check_live (c):
     cmp ('second object of the first model, built before and computed after the other model', dict (current = np.array (a2.current), Z = np.array (a2.Z), imp = np.array ([complex (s.impedance) for s in a2.sources])), ref)
     observe.solve (b)
     cmp ('other model computed again', dict (current = np.array (b.current), imp = np.array ([complex (s.impedance) for s in b.sources])), rb)
+    # one load object handed to the first model and then to the second: refused, or the second model carries the load
+    # (what a load object of its own gives) - whether the first model was made before must not matter
+    if c ['i'] % 3 == 0 and len (b.pulses) >= 2:
+        ld  = MM.Impedance_Load (120.0 + 45.0j)
+        a3, b3, b4 = gen.build (sa, **kwb), gen.build (sb, **kwb), gen.build (sb, **kwb)
+        a3.register_load (ld, 0)
+        mon ['shared-load'] = 1
+        try:
+            b3.register_load (ld, 1)
+            refused = False
+        except Exception:
+            refused = True
+        if not refused:
+            b4.register_load (MM.Impedance_Load (120.0 + 45.0j), 1)
+            observe.solve (b3); observe.solve (b4)
+            e = relerr (np.array (b3.current), np.array (b4.current))
+            worst = max (worst, e / 1e-12)
+            if e > 1e-12:
+                viol.append (dict (monitor = 'live:shared-load', key = 'load-object-of-another-model', msg = 'a load object registered in one model and then in a second one is accepted: the currents of the second model differ by %.3g from those with a load object of its own (%d loads in the model)' % (e, len (b3.loads)), measured = e, allowed = 1e-12))
     return dict ( status = 'violation' if viol else 'held', sig = 'live|%s|%s|%d-%d' % (sa.get ('fam'), sb.get ('fam'), len (a.pulses), len (b.pulses))
                 , nontrivial = len (a.pulses) != len (b.pulses), margin = worst, monitors = {k [:40]: v for k, v in mon.items ()}, violations = viol)
 # end def check_live
